@@ -259,8 +259,15 @@ def rule_num(prog, rep):
     #   FloatValue :: IntegerPart (FractionalPart | ExponentPart | FractionalPart ExponentPart)
     #   FractionalPart :: . Digit+      ExponentPart :: (e|E) (+|-)? Digit+
     from ..strlang import StrLang, from_regex
-    sl = StrLang(prog, "apollo_compiler")
-    classes = {"digit": set("05"), "nz": set("5")}
+    if rep.tier == "thorough":
+        # every printable ASCII character is its own symbol (plus one non-ASCII representative)
+        alpha = "".join(chr(c) for c in range(0x20, 0x7F)) + "\u00e9"
+        sl = StrLang(prog, "apollo_compiler", alphabet=alpha)
+        classes = {"digit": set("0123456789"), "nz": set("123456789")}
+    else:
+        # representatives: 0, 5 (for 1-9), the characters the predicates mention, and others
+        sl = StrLang(prog, "apollo_compiler")
+        classes = {"digit": set("05"), "nz": set("5")}
     refs = {
         "IntValue": from_regex(sl.alpha, r"-?(0|{nz}{digit}*)", classes),
         "FloatValue": from_regex(sl.alpha, r"-?(0|{nz}{digit}*)(.{digit}+|(e|E)(\+|-)?{digit}+|.{digit}+(e|E)(\+|-)?{digit}+)", classes),
